@@ -1503,10 +1503,14 @@ def _s_rsv(P, v, rec):
 
 @spec('util.inference_util.pool_rdm', 'util.pooling.pool_rdm')
 def _s_pool(P, v, rec):
-    ms = ['cosine', 'corr', 'spearman', 'rho-a', 'kendall', 'neg_riem_dist', 'cosine_cov', 'corr_cov']
-    if v >= len(ms):
-        return None
-    return dict(method=ms[v])
+    ms = ['cosine', 'corr', 'spearman', 'rho-a', 'kendall', 'neg_riem_dist', 'cosine_cov', 'corr_cov', 'euclid']
+    if v < len(ms):
+        return dict(method=ms[v])
+    # a single RDM (the pooled RDM of one RDM must still be a new object): shortcut paths
+    single = ['euclid', 'cosine', 'corr', 'spearman']
+    if v - len(ms) < len(single):
+        return dict(method=single[v - len(ms)], rdms=P.rdms(n_rdm=1))
+    return None
 
 
 @spec('util.matrix.get_v')
